@@ -18,6 +18,11 @@ def payload(size, seed, label=b""):
     return out[:size]
 
 
+from zope.interface import implementer as _implementer
+from twisted.internet.interfaces import IConsumer as _IConsumer
+
+
+@_implementer(_IConsumer)
 class RecordingConsumer(object):
     """IConsumer that records every write; optional scripted behaviour per write"""
 
